@@ -1,5 +1,7 @@
 import BrushVerif.Model.ParamOps
 import BrushVerif.Spec.ParamOps
+import BrushVerif.Model.Pattern
+import BrushVerif.Spec.Glob
 /-!
 Driver for C06.
 
@@ -157,16 +159,51 @@ def variants (p : Param) (nounset : Bool) (m : Str → Bool) : Op → List Outco
     | _, _ => []
   | _ => []
 
+def rmKind? (o : Str) : Option RmKind :=
+  if o = ['#'] then some ⟨false, false⟩ else if o = ['#', '#'] then some ⟨false, true⟩
+  else if o = ['%'] then some ⟨true, false⟩ else if o = ['%', '%'] then some ⟨true, true⟩ else none
+
+/-- `rmx <#|##|%|%%> <pattern text>`: removal with an extglob pattern given as shell text
+(`shopt -s extglob`).  The abstract matcher of the removal loops is instantiated with C08's model
+of brush's pattern → regex translation and backtracking semantics (`Pattern.exactlyMatches`); the
+reference side uses C08's bash matching relation (`Glob.matchB` on `Glob.specParse`).
+`uncovered` when the pattern text is outside the fragment those models speak about. -/
+def handleRmx (p : Param) (nounset : Bool) (k : RmKind) (ptxt : Str) : Str :=
+  match BrushVerif.Glob.specParse true ptxt with
+  | none => "uncovered".toList
+  | some q =>
+    let bp := BrushVerif.Pattern.parsePat true ptxt
+    if bp.backslashAlnum || bp.setOp || bp.caretFirst then "uncovered".toList else
+    let mI := BrushVerif.Pattern.exactlyMatches true false ptxt
+    let mS := BrushVerif.Glob.matchB false q
+    let op := Op.rm k true
+    let i := expandExpr p nounset mI op
+    let s := bashExpr p nounset mS op
+    let cl : List String :=
+      (if !k.largest && mS [] then ["shortest_match_skips_empty"] else []) ++
+      (if bp.hasBang then ["extglob_negation_not_complement"] else [])
+    showOutcome p i ++ " | ".toList ++ showOutcome p s ++ " | ".toList ++
+      (if cl.isEmpty then ['-'] else (String.intercalate "," cl).toList) ++
+      ((variants p nounset mI op).flatMap fun v => " | ".toList ++ showOutcome p v)
+
 def handle (toks : List Str) : Str :=
   match toks with
   | nu :: rest =>
     match parseParam rest with
     | none => "bad-param".toList
-    | some (p, opToks) =>
+    | some (p, [w, o, l]) =>
+      if w = "rmx".toList then
+        match rmKind? o with
+        | some k => handleRmx p (nu = ['1']) k (unesc l)
+        | none => "bad-op".toList
+      else handleStd p (nu = ['1']) [w, o, l]
+    | some (p, opToks) => handleStd p (nu = ['1']) opToks
+  | _ => "bad-request".toList
+where
+  handleStd (p : Param) (nounset : Bool) (opToks : List Str) : Str :=
       match parseOp opToks with
       | none => "bad-op".toList
       | some (op, pat) =>
-        let nounset := nu = ['1']
         let pt := pat.getD []
         let i := expandExpr p nounset (brushMatch pt) op
         let s := bashExpr p nounset (globMatch pt) op
@@ -174,6 +211,5 @@ def handle (toks : List Str) : Str :=
         showOutcome p i ++ " | ".toList ++ showOutcome p s ++ " | ".toList ++
           (if cl.isEmpty then ['-'] else (String.intercalate "," cl).toList) ++
           ((variants p nounset (brushMatch pt) op).flatMap fun v => " | ".toList ++ showOutcome p v)
-  | _ => "bad-request".toList
 
 end BrushVerif.Drv.C06
